@@ -67,7 +67,7 @@ pub fn contract(rng: &mut Rng, ctx: &Ctx) -> String {
 }
 
 const GOOD_KEYS: &[&str] = &["a", "key", "k_1", "x%20y", "%c3%a4", "a_"];
-const BAD_KEYS: &[&str] = &["%", "_a", "%20", "%20_x", "%09", "_", "%e2%80%83", "%c2%a0_k", "%e3%80%80"];
+const BAD_KEYS: &[&str] = &["%", "_a", "%20", "%20_x", "%09", "_", "%e2%80%83", "%c2%a0_k", "%e3%80%80", "_contract_address", "_contract_address%20", "%20_contract_address"];
 const TRICKY_OK_KEYS: &[&str] = &["%e2%80%8b", "%ef%bb%bf", "%e1%a0%8e", "a%20", "%20a", "%e2%80%8b_x", "x_"];
 const GOOD_TYS: &[&str] = &["ev", "foo", "ab", "%20ab%20", "%c3%a4", "wasm"];
 const BAD_TYS: &[&str] = &["%", "a", "%20a%20", "%20", "%09x%0a", "%e2%80%83b"];
